@@ -179,8 +179,8 @@ func checkC20Composed(c any, r *Rec) error {
 				}
 				break // rendering is checked by verifyAll
 			}
-			if fetched != 1 {
-				return fail("set%d.FromCache(%q) on a cold entry (Debug %v) fetched the file %d times, want exactly 1", op.Set, n, s.debug, fetched)
+			if fetched < 1 || (fetched != 1 && !s.debug) {
+				return fail("set%d.FromCache(%q) on a cold entry (Debug %v) fetched the file %d times, want exactly 1 (with Debug on: at least 1)", op.Set, n, s.debug, fetched)
 			}
 			if has && tpl == e.tpl {
 				return fail("set%d.FromCache(%q) with Debug on returned the cached instance", op.Set, n)
